@@ -67,9 +67,11 @@ var c20Keys = []string{
 	// very short keys (legal for the CLI, however supplied): anything that shows "only the last four
 	// characters" or pads to a minimum width shows all of them
 	`Zq7!`, "§¶", `~Zq^7`,
+	// shapes other credential schemes give a meaning to: a service-account secret, a curl-style @file reference, scheme prefixes
+	`mdb_sa_sk_Zr8+Qw/7pL=x2VnT-9f3c2b7e1a`, `@Zq7-private-key-file.txt`, `file:///Zq7/atlas-private.key`, `env:ZQ7_ATLAS_SECRET`, `Bearer zq7eyJhbGciOiJIUzI1NiJ9`,
 }
 
-var c20Pubs = []string{"pubKEYzq7", "pub:colon@x"}
+var c20Pubs = []string{"pubKEYzq7", "pub:colon@x", "mdb_sa_id_6f1e2d3c4b5a69788796a5b4"}
 
 var c20Supplies = []string{"flags", "flags-equals-form", "env", "pub-flag+priv-env", "pub-env+priv-flag"}
 
